@@ -259,6 +259,11 @@ async fn wait_first_byte(sock: &TcpStream) -> bool {
     matches!(sock.peek(&mut b).await, Ok(n) if n > 0)
 }
 
+/// Has the peer already closed its side (FIN seen), even though data may still be buffered?
+async fn peer_closed(sock: &TcpStream) -> bool {
+    matches!(sock.ready(tokio::io::Interest::READABLE).await, Ok(r) if r.is_read_closed())
+}
+
 fn decode_body(sig: Option<Signal>, content_type: &str, gzip: bool, body: &[u8]) -> (Result<Vec<i64>, String>, &'static str) {
     let Some(sig) = sig else { return (Err("unknown path".into()), "?") };
     let raw = if gzip {
@@ -282,6 +287,10 @@ async fn serve_http1(mut sock: TcpStream, conn: u64, ep: Arc<Endpoint>) {
     loop {
         if !stalled && buf.is_empty() && ep.peek_drop_before() {
             if !wait_first_byte(&sock).await {
+                return;
+            }
+            if peer_closed(&sock).await {
+                ep.log.push(json!({"ev": "Abandoned", "ep": ep.sig.name(), "conn": conn}));
                 return;
             }
             // a request is arriving; the next decision may have changed while we waited
@@ -348,6 +357,18 @@ async fn serve_http1(mut sock: TcpStream, conn: u64, ep: Arc<Endpoint>) {
             ep.log_req(conn, &path, Decision::Stall, Some(ids), enc, cenc == "gzip", body.len(), true);
             continue;
         }
+        // The client may have given up on this request (its own timeout) before we got to it:
+        // it then closed the connection.  Such a request is not decided and takes no script
+        // entry; it is evidence that this run was too slow for the client's timeout.
+        let mut probe = [0u8; 1];
+        match sock.try_read(&mut probe) {
+            Ok(0) => {
+                ep.log.push(json!({"ev": "Abandoned", "ep": ep.sig.name(), "conn": conn}));
+                return;
+            }
+            Ok(_) => buf.push(probe[0]), // (a pipelined byte; keep it)
+            Err(_) => {}
+        }
         let d = ep.pop();
         ep.log_req(conn, &path, d, Some(ids), enc, cenc == "gzip", body.len(), false);
         match d {
@@ -377,6 +398,10 @@ async fn serve_http1(mut sock: TcpStream, conn: u64, ep: Arc<Endpoint>) {
 async fn serve_h2(sock: TcpStream, conn: u64, ep: Arc<Endpoint>) {
     if ep.peek_drop_before() {
         if !wait_first_byte(&sock).await {
+            return;
+        }
+        if peer_closed(&sock).await {
+            ep.log.push(json!({"ev": "Abandoned", "ep": ep.sig.name(), "conn": conn}));
             return;
         }
         if ep.peek_drop_before() {
@@ -452,6 +477,12 @@ async fn h2_stream(
     if stalled.load(Ordering::SeqCst) {
         ep.log_req(conn, &path, Decision::Stall, Some(ids), "proto", gz, data.len(), true);
         return std::future::pending::<()>().await;
+    }
+    // the client gave up on the call (reset the stream or dropped the connection) before we
+    // got to decide it: not decided, no script entry taken
+    if let Ok(_) = tokio::time::timeout(std::time::Duration::ZERO, std::future::poll_fn(|cx| respond.poll_reset(cx))).await {
+        ep.log.push(json!({"ev": "Abandoned", "ep": ep.sig.name(), "conn": conn}));
+        return;
     }
     let d = ep.pop();
     ep.log_req(conn, &path, d, Some(ids), "proto", gz, data.len(), false);
